@@ -186,4 +186,83 @@ Proof.
         congruence. }
       rewrite Hk. reflexivity.
 Qed.
+
+(* ---- map:merge ---- *)
+Lemma treplace_keys : forall (m : tmap K) k f, map fst (treplace eqk m k f) = map fst m.
+Proof. induction m as [|[k0 v0] r IH]; intros k f; cbn; auto. destruct (eqk k0 k); cbn; [reflexivity|rewrite IH; reflexivity]. Qed.
+Lemma twf_keys : forall (m m' : tmap K), map fst m = map fst m' -> twf eqk m -> twf eqk m'.
+Proof.
+  induction m as [|[k v] r IH]; intros [|[k' v'] r'] E W; cbn in *; try discriminate; auto.
+  injection E as -> E. destruct W as (W1 & W2). split; [|apply (IH r' E W2)].
+  intros kv Hin. apply (in_map fst) in Hin. rewrite <- E in Hin. apply in_map_iff in Hin.
+  destruct Hin as (kv0 & Hf & Hin0). rewrite <- Hf. apply W1. exact Hin0.
+Qed.
+Lemma tlookup_none_all : forall (m : tmap K) k, tlookup eqk m k = None -> forall kv, In kv m -> eqk (fst kv) k = false.
+Proof.
+  induction m as [|[k0 v0] r IH]; intros k H kv Hin; [destruct Hin|].
+  cbn in H. destruct (eqk k0 k) eqn:E; [discriminate|]. destruct Hin as [<-|Hin]; [exact E|apply IH; auto].
+Qed.
+Lemma tmerge_one_wf : forall p (m m' : tmap K) kv, twf eqk m -> tmerge_one eqk p m kv = Some m' -> twf eqk m'.
+Proof.
+  intros p m m' [k v] W H. unfold tmerge_one in H. destruct (tlookup eqk m k) eqn:L.
+  - destruct (p =? 0); [injection H as <-; exact W|].
+    destruct (p =? 1); [injection H as <-; apply (twf_tput m k v W)|].
+    destruct (p =? 2); [discriminate|]. injection H as <-.
+    apply (twf_keys m); [symmetry; apply treplace_keys|exact W].
+  - injection H as <-. apply twf_app_one; [exact W|]. apply tlookup_none_all. exact L.
+Qed.
+Lemma tmerge_fold_wf : forall p l (m m' : tmap K), twf eqk m -> tmerge_fold eqk p m l = Some m' -> twf eqk m'.
+Proof.
+  induction l as [|kv r IH]; intros m m' W H; cbn in H; [injection H as <-; exact W|].
+  destruct (tmerge_one eqk p m kv) eqn:E; [|discriminate]. apply (IH t m'); auto. apply (tmerge_one_wf p m t kv W E).
+Qed.
+(* the merged map has no two entries with the same key, whatever the operands and the policy *)
+Lemma tmerge_wf : forall p ms (m : tmap K), tmerge eqk p ms = Some m -> twf eqk m.
+Proof. intros p ms m H. apply (tmerge_fold_wf p (concat ms) [] m); [exact I|exact H]. Qed.
+
+Lemma tget_treplace : forall (m : tmap K) k f k', twf eqk m ->
+  tget eqk (treplace eqk m k f) k' =
+  match tlookup eqk m k with
+  | Some old => if eqk k k' then f old else tget eqk m k'
+  | None => tget eqk m k'
+  end.
+Proof.
+  unfold tget. induction m as [|[k0 v0] r IH]; intros k f k' W; cbn; auto.
+  cbn in W. destruct W as (W1 & W2).
+  destruct (eqk k0 k) eqn:E; cbn.
+  - destruct (eqk k0 k') eqn:E1.
+    + rewrite eqk_sym in E. rewrite (eqk_trans k k0 k' E E1). reflexivity.
+    + destruct (eqk k k') eqn:E2; [|reflexivity].
+      rewrite (eqk_trans k0 k k' E E2) in E1. discriminate.
+  - specialize (IH k f k' W2). destruct (eqk k0 k') eqn:E1.
+    + destruct (tlookup eqk r k) eqn:L; [|reflexivity].
+      destruct (eqk k k') eqn:E2; [|reflexivity].
+      exfalso. rewrite eqk_sym in E2. rewrite (eqk_trans k0 k' k E1 E2) in E. discriminate.
+    + exact IH.
+Qed.
+(* one entry merged into the accumulated map, per policy *)
+Lemma tmerge_one_spec : forall p (m : tmap K) k v k', twf eqk m ->
+  match tlookup eqk m k with
+  | None => exists m', tmerge_one eqk p m (k, v) = Some m' /\ tget eqk m' k' = if eqk k k' then v else tget eqk m k'
+  | Some old =>
+      if p =? 0 then tmerge_one eqk p m (k, v) = Some m
+      else if p =? 1 then exists m', tmerge_one eqk p m (k, v) = Some m' /\ tget eqk m' k' = if eqk k k' then v else tget eqk m k'
+      else if p =? 2 then tmerge_one eqk p m (k, v) = None
+      else exists m', tmerge_one eqk p m (k, v) = Some m' /\ tget eqk m' k' = if eqk k k' then old ++ v else tget eqk m k'
+  end.
+Proof.
+  intros p m k v k' W. unfold tmerge_one. destruct (tlookup eqk m k) eqn:L.
+  - destruct (p =? 0); [reflexivity|]. destruct (p =? 1).
+    + eexists. split; [reflexivity|]. apply (tget_tput m k v k').
+    + destruct (p =? 2); [reflexivity|]. eexists. split; [reflexivity|].
+      rewrite (tget_treplace m k _ k' W), L. reflexivity.
+  - eexists. split; [reflexivity|]. unfold tget. rewrite tlookup_app. cbn.
+    destruct (tlookup eqk m k') eqn:L'.
+    + destruct (eqk k k') eqn:E; [|reflexivity].
+      exfalso. assert (tlookup eqk m k' = None) as N; [|congruence].
+      clear L'. induction m as [|[k0 v0] r IH]; cbn in *; auto. destruct W as (W1 & W2).
+      destruct (eqk k0 k) eqn:E0; [discriminate|]. destruct (eqk k0 k') eqn:E1; [|apply IH; auto].
+      rewrite eqk_sym in E. rewrite (eqk_trans k0 k' k E1 E) in E0. discriminate.
+    + destruct (eqk k k'); reflexivity.
+Qed.
 End TMapLaws.
